@@ -222,13 +222,14 @@ fn key_coq(k: &CommanderKey) -> String {
     }
 }
 
-async fn run_links(ops: &[TOp]) -> Vec<String> {
+async fn run_links(ops: &[TOp], command_buffer: usize) -> Vec<String> {
     let id = Uuid::from_u128(7);
     let (chan_tx, chan_rx) = mpsc::channel(8);
     let (links_tx, mut links_rx) = mpsc::channel::<LinkRequest>(64);
     let state = LinksTaskState::new(links_tx);
     let config = LinksTaskConfig {
-        buffer_size: NonZeroUsize::new(1 << 20).unwrap(),
+        // the size of the agent's command channel: small ones split every command frame between reads
+        buffer_size: NonZeroUsize::new(command_buffer).unwrap(),
         retry_strategy: RetryStrategy::none(),
         timeout_delay: Duration::from_secs(3600),
     };
@@ -357,9 +358,16 @@ fn main() {
     let mut samples = vec![];
     let rt = tokio::runtime::Builder::new_current_thread().enable_time().build().unwrap();
 
+    let mut links_cases = 0usize;
+    let small_channel = std::cell::Cell::new(0u64);
     let mut emit_links = |ops: &[TOp], w: &mut CaseWriter, nontrivial: &mut u64| {
         let ops2 = ops.to_vec();
-        let outs = catch(std::panic::AssertUnwindSafe(|| rt.block_on(run_links(&ops2)))).unwrap_or_else(|m| vec![format!("TUnit (* PANIC {} *)", m.replace("*)", "* )"))]);
+        let command_buffer = [1usize << 20, 64, 24, 17, 9, 5, 3][links_cases % 7];
+        links_cases += 1;
+        if command_buffer < 64 {
+            small_channel.set(small_channel.get() + 1);
+        }
+        let outs = catch(std::panic::AssertUnwindSafe(|| rt.block_on(run_links(&ops2, command_buffer)))).unwrap_or_else(|m| vec![format!("TUnit (* PANIC {} *)", m.replace("*)", "* )"))]);
         let term = format!("CaseLinks {} {}", coq_list(ops.iter().map(|o| o.coq())), coq_list(outs.iter().cloned()));
         let human = format!("links ops={:?} impl={:?}", ops, outs);
         // non-trivial: at least two sends between an open and the next drain (the writer is away)
@@ -504,10 +512,11 @@ fn main() {
     }
 
     w.finish(&args.out, "cases").unwrap();
+    *kinds.entry("links_with_a_command_channel_smaller_than_a_frame".into()).or_default() += small_channel.get();
     let meta = J::obj(vec![
         ("evaluations", J::I(w.len() as i128)),
         ("distinct_nontrivial", J::I(nontrivial as i128)),
-        ("rule", J::s("links: the real external_links_task on a current-thread runtime; the agent side sends Addressed / Register+Registered command frames (unique bodies, random overwrite flags, up to 2 remote hosts sharing one output each and up to 4 local targets) and lets the task run until idle; target channels have capacity 1 so a write never completes before its target reads; Open answers the outstanding channel requests, Drain lets every target read until nothing arrives and decodes the stream with the real RawRequestMessageDecoder; non-trivial = 3 or more sends while a write is in flight. supply lane: Supply / SupplyLaneSync handlers and write_to_buffer on a real SupplyLane<i32>, frames decoded with the real decoder; bursts without writes. supply backpressure: push_operation / prepare_write / has_data on the real SupplyBackpressure with empty and 8-byte-boundary bodies. distinct by rendered case")),
+        ("rule", J::s("links: the real external_links_task on a current-thread runtime; the agent side sends Addressed / Register+Registered command frames (unique bodies, random overwrite flags, up to 2 remote hosts sharing one output each and up to 4 local targets) and lets the task run until idle; the agent's command channel holds 2^20, 64, 24, 17, 9, 5 or 3 bytes in turn (the smaller ones split every command frame between reads); target channels have capacity 1 so a write never completes before its target reads; Open answers the outstanding channel requests, Drain lets every target read until nothing arrives and decodes the stream with the real RawRequestMessageDecoder; non-trivial = 3 or more sends while a write is in flight. supply lane: Supply / SupplyLaneSync handlers and write_to_buffer on a real SupplyLane<i32>, frames decoded with the real decoder; bursts without writes. supply backpressure: push_operation / prepare_write / has_data on the real SupplyBackpressure with empty and 8-byte-boundary bodies. distinct by rendered case")),
         ("structures", J::counts(&kinds)),
         ("samples", J::A(samples)),
     ]);
